@@ -88,6 +88,23 @@ pub fn run(repo: &Path, out: &Path) -> Result<(), String> {
                         if name == "build" {
                             let mut fs_ = FindStruct { name: "CreateTable", found: vec![] };
                             fs_.visit_block(&f.block);
+                            if fs_.found.is_empty() {
+                                // build() delegates: take the literal from the inherent method it names
+                                let body = { let b = &f.block; quote::quote!(#b).to_string() };
+                                for it2 in &hb.items {
+                                    if let syn::Item::Impl(im2) = it2 {
+                                        if im2.trait_.is_some() { continue; }
+                                        for ii2 in &im2.items {
+                                            if let syn::ImplItem::Fn(g) = ii2 {
+                                                let gname = g.sig.ident.to_string();
+                                                if gname != "build" && body.contains(&gname) && fs_.found.is_empty() {
+                                                    fs_.visit_block(&g.block);
+                                                }
+                                            }
+                                        }
+                                    }
+                                }
+                            }
                             let s = fs_.found.first().ok_or("build(): no CreateTable literal")?;
                             if s.rest.is_some() {
                                 build_map.push((9998, 9998));
